@@ -155,10 +155,17 @@ CURATED_BOUNDS = [
     ("b-star", "s = A* B C*"),
     ("b-plus", "s = A+ B"),
     ("b-list", "s = @list(x, C) D?\nx = A | A B"),
-    ("b-listopt", "s = L @list(x, C)? R\nx = A | @empty B"),
+    ("b-listopt", "s = L @list(x, C)? R\nx = A | n B\nn = @empty"),
     ("b-expr", "e = e P t | t\nt = N | L e R"),
     ("b-star-rule", "s = x* E\nx = A n B n\nn = @empty"),
     ("b-opt-rule-empty", "s = x? A\nx = B | n C\nn = @empty"),
+    # list / optional helper reductions over elements that derive nothing
+    ("b-list-nullable-elem", "s = @list(x, C) D\nx = A | @empty"),
+    ("b-list-nullable-elem-last", "s = D @list(x, C)\nx = A B | @empty"),
+    ("b-listopt-nullable-elem", "s = L @list(x, C)? R\nx = A | @empty"),
+    ("b-list-nullable-sep", "s = @list(A, sep) D\nsep = C | @empty"),
+    ("b-opt-of-nullable-free", "s = L x? R\nx = n A n\nn = @empty"),
+    ("b-star-after-empty", "s = n A* n B\nn = @empty"),
 ]
 
 
@@ -420,3 +427,40 @@ def shift_family(kmax=3):
             alts = ["e P %s%s" % (tails[i], quals[qs[i]]) for i in range(k)] + ["N"]
             out.append(gram("shift-%d-%s" % (k, "".join(str(q) for q in qs)), "e = " + " | ".join(alts)))
     return out
+
+
+def rename_variants(cases):
+    """the same grammars with terminal names whose sort order is reversed (lox orders symbols by *name* in several
+    places: Next(), action rows, transition inputs), and rule names that sort before / after the helper names"""
+    import copy
+    out = []
+    for c in cases:
+        n = len(c["terms"])
+        if n < 2:
+            continue
+        order = sorted(range(n), key=lambda i: c["terms"][i])
+        v = copy.deepcopy(c)
+        new = [None] * n
+        for rank, i in enumerate(order):
+            new[i] = "T%c%d" % (chr(ord("Z") - rank % 26), rank)      # TZ0 > TY1 > ... : reversed order
+        v["terms"] = new
+        v["id"] = c["id"] + "~names"
+        out.append(v)
+    return out
+
+
+def self_nesting():
+    """constructs that nest directly inside themselves: the state after the opening token loops back to itself and
+    gains lookaheads through its own loop"""
+    shapes = [
+        ("nest-array", "array = LB RB | LB @list(value, COMMA) RB\nvalue = array | NUM"),
+        ("nest-array-opt", "array = LB @list(value, COMMA)? RB\nvalue = array | NUM"),
+        ("nest-paren-star", "e = LP e* RP | N"),
+        ("nest-paren-plus", "s = g+\ng = LP g* RP | A"),
+        ("nest-block", "b = OB st* CB\nst = b | I S | b S"),
+        ("nest-two-brackets", "v = LB v RB | LC v RC | LB RB | N"),
+        ("nest-prefix-chain", "e = M e | P e | LP e RP | N"),
+        ("nest-self-list", "l = X l Y | X A | A B"),
+        ("nest-rightrec-list", "s = l\nl = X l Y | X | A"),
+    ]
+    return [gram(n, t) for n, t in shapes]
